@@ -30,6 +30,37 @@ pub struct CertSpec {
     pub validity: u8,
     /// corrupt the DER afterwards (byte flip / truncation)
     pub corrupt: Option<u64>,
+    /// carry the serial number that the ordinary certificate of this OTHER key carries (whoever builds a
+    /// certificate chooses its serial number)
+    pub serial_of: Option<usize>,
+}
+
+/// the serial number field of a DER certificate (Certificate -> TBSCertificate -> [0] version -> INTEGER)
+pub fn cert_serial(der: &[u8]) -> Option<Vec<u8>> {
+    fn tlv(b: &[u8]) -> Option<(u8, &[u8], &[u8])> {
+        let tag = *b.first()?;
+        let l0 = *b.get(1)? as usize;
+        let (len, hdr) = if l0 < 0x80 {
+            (l0, 2)
+        } else {
+            let n = l0 & 0x7f;
+            let mut len = 0usize;
+            for i in 0..n {
+                len = (len << 8) | *b.get(2 + i)? as usize;
+            }
+            (len, 2 + n)
+        };
+        Some((tag, b.get(hdr..hdr + len)?, b.get(hdr + len..)?))
+    }
+    let (_, cert, _) = tlv(der)?;
+    let (_, tbs, _) = tlv(cert)?;
+    let (tag, first, rest) = tlv(tbs)?;
+    if tag == 0xa0 {
+        let (t, serial, _) = tlv(rest)?;
+        (t == 0x02).then(|| serial.to_vec())
+    } else {
+        (tag == 0x02).then(|| first.to_vec())
+    }
 }
 
 pub struct Keys {
@@ -76,6 +107,10 @@ pub fn build_cert(keys: &Keys, s: &CertSpec) -> Option<CertificateDer<'static>> 
         }
         _ => {}
     }
+    if let Some(k) = s.serial_of {
+        let other = rcgen::CertificateParams::new(vec!["x".to_string()]).ok()?.self_signed(&keys.ed_kp[k]).ok()?;
+        params.serial_number = Some(rcgen::SerialNumber::from_slice(&cert_serial(other.der())?));
+    }
     let subject = keys.kp(s.spki, &s.spki_alg);
     let cert = if s.signer == s.spki && s.sig_alg == s.spki_alg {
         params.self_signed(subject).ok()?
@@ -118,9 +153,10 @@ pub fn spec_s(s: &CertSpec) -> String {
 
 fn gen_spec(rng: &mut Rng, nkeys: usize, names_pool: &[&str]) -> CertSpec {
     let spki = rng.below(nkeys as u64) as usize;
-    let mut s = CertSpec { spki, spki_alg: Alg::Ed25519, signer: spki, sig_alg: Alg::Ed25519, names: vec![if rng.chance(2, 3) { names_pool[0].to_string() } else { (*rng.pick(names_pool)).to_string() }], validity: 0, corrupt: None };
+    let mut s = CertSpec { spki, spki_alg: Alg::Ed25519, signer: spki, sig_alg: Alg::Ed25519, names: vec![if rng.chance(2, 3) { names_pool[0].to_string() } else { (*rng.pick(names_pool)).to_string() }], validity: 0, corrupt: None, serial_of: None };
     match rng.below(16) {
-        0 | 1 | 2 | 12 | 13 | 14 | 15 => {}
+        0 | 1 | 2 | 13 | 14 | 15 => {}
+        12 => s.serial_of = Some((spki + 1 + rng.below(nkeys as u64 - 1) as usize) % nkeys), // own key, the serial number of somebody else's certificate
         3 => s.signer = (spki + 1 + rng.below(nkeys as u64 - 1) as usize) % nkeys, // subject key X, signed by Y
         4 => {
             s.spki_alg = Alg::Other;
@@ -220,6 +256,10 @@ fn unit_level(run: &mut Run, rng: &mut Rng, keys: &Keys, n: usize) {
                 if spec.corrupt.is_some() && accepted_id != Some(hs_signer) {
                     run.oracle_fail(json!({"kind": "a corrupted certificate was accepted under another identity", "ops": [op.clone()], "der": hex::encode(&cert)}));
                 }
+                // C14: the dialer's certificate must be valid for a name the listener accepts
+                if spec.corrupt.is_none() && !spec.names.iter().any(|n| accepted.iter().any(|a| a.eq_ignore_ascii_case(n))) {
+                    run.oracle_fail(json!({"kind": "listener accepted a certificate that is not valid for any network name it accepts", "ops": [op.clone()], "certificate_names": spec.names.clone(), "accepted_names": accepted.clone()}));
+                }
             }
             run.count("server-verify", if out == "reject" { "reject" } else { "accept" });
             if spec.corrupt.is_none() {
@@ -265,6 +305,10 @@ fn unit_level(run: &mut Run, rng: &mut Rng, keys: &Keys, n: usize) {
             );
             if ok && (id != Some(hs_signer) || pin.map(|p| Some(p) != id).unwrap_or(false)) {
                 run.oracle_fail(json!({"kind": "dialer accepted a party whose key it did not prove, or another identity than the one expected", "ops": [op.clone()], "der": hex::encode(&cert)}));
+            }
+            // C14: the listener's certificate must be valid for the name dialed, and that name must be one of the dialer's own
+            if ok && spec.corrupt.is_none() && !(spec.names.iter().any(|n| n.eq_ignore_ascii_case(&dialed)) && own.iter().any(|o| o.eq_ignore_ascii_case(&dialed))) {
+                run.oracle_fail(json!({"kind": "dialer accepted a certificate that is not valid for the network name it dialed (or dialed with a name that is not its own)", "ops": [op.clone()], "certificate_names": spec.names.clone(), "dialed": dialed.clone(), "own_names": own.clone(), "pinned": pin.is_some()}));
             }
             run.count("client-verify", if ok { "accept" } else { "reject" });
             if spec.corrupt.is_none() {
@@ -406,7 +450,7 @@ fn adversary_dials(run: &mut Run, rng: &mut Rng, keys: &Keys, case: u64) -> anyh
     let spec = {
         let mut s = gen_spec(rng, keys.ed.len(), &NAMES);
         if rng.chance(1, 3) {
-            s = CertSpec { spki: s.spki, spki_alg: Alg::Ed25519, signer: s.spki, sig_alg: Alg::Ed25519, names: vec!["verif".into()], validity: 0, corrupt: None };
+            s = CertSpec { spki: s.spki, spki_alg: Alg::Ed25519, signer: s.spki, sig_alg: Alg::Ed25519, names: vec!["verif".into()], validity: 0, corrupt: None, serial_of: None };
         }
         s
     };
@@ -508,7 +552,7 @@ fn adversary_listens(run: &mut Run, rng: &mut Rng, keys: &Keys, case: u64) -> an
     run.mark(&format!("scenario adversary_listens case {case} seed {} (re-run with ./check <property> --seed <seed>)", run.seed));
     let mut spec = gen_spec(rng, keys.ed.len(), &["verif", "Verif", "other"]);
     if rng.chance(1, 3) {
-        spec = CertSpec { spki: spec.spki, spki_alg: Alg::Ed25519, signer: spec.spki, sig_alg: Alg::Ed25519, names: vec!["verif".into()], validity: 0, corrupt: None };
+        spec = CertSpec { spki: spec.spki, spki_alg: Alg::Ed25519, signer: spec.spki, sig_alg: Alg::Ed25519, names: vec!["verif".into()], validity: 0, corrupt: None, serial_of: None };
     }
     let hs_idx = if rng.chance(1, 2) { spec.spki } else { rng.below(keys.ed.len() as u64) as usize };
     let (hs_signer, hs_alg, hs_key) = adversary_signer(rng, keys, hs_idx);
@@ -772,7 +816,7 @@ fn pinned_history(run: &mut Run, rng: &mut Rng, keys: &Keys, case: u64) -> anyho
     let chain_mode = rng.below(3);
     let dials2 = dials.clone();
     let adv_key = signing_key(keys, 0, &Alg::Ed25519);
-    let adv_own = build_cert(keys, &CertSpec { spki: 0, spki_alg: Alg::Ed25519, signer: 0, sig_alg: Alg::Ed25519, names: vec!["verif".into()], validity: 0, corrupt: None }).unwrap();
+    let adv_own = build_cert(keys, &CertSpec { spki: 0, spki_alg: Alg::Ed25519, signer: 0, sig_alg: Alg::Ed25519, names: vec!["verif".into()], validity: 0, corrupt: None, serial_of: None }).unwrap();
     let rt = paused_rt();
     type R = (usize, usize, Option<usize>, Result<PeerId, String>, bool);
     let res: anyhow::Result<(Vec<R>, Vec<PeerId>, Vec<Vec<PeerId>>, Vec<Vec<String>>, Vec<usize>, u64)> = rt.block_on(async move {
@@ -1018,7 +1062,7 @@ fn common(run: &mut Run, which: &str) -> anyhow::Result<()> {
                 message_attribution(run, &mut rng, 60_000 + i)?;
             }
             // every single-byte mutation class of one valid certificate (sampled in quick)
-            let base = CertSpec { spki: 0, spki_alg: Alg::Ed25519, signer: 0, sig_alg: Alg::Ed25519, names: vec!["verif".into()], validity: 0, corrupt: None };
+            let base = CertSpec { spki: 0, spki_alg: Alg::Ed25519, signer: 0, sig_alg: Alg::Ed25519, names: vec!["verif".into()], validity: 0, corrupt: None, serial_of: None };
             let der_len = build_cert(&keys, &base).map(|c| c.len()).unwrap_or(300) as u64;
             let step = if q { 7 } else { 1 };
             let mut accepted_mut = 0u64;
